@@ -1844,6 +1844,10 @@ func (ls *LState) ObjLen(v1 LValue) int {
 /* binary operations {{{ */
 
 func (ls *LState) Concat(values ...LValue) string {
+	if len(values) == 0 {
+		// as lua_concat with n == 0: the empty string; stringConcat would read the value below the operands
+		return ""
+	}
 	top := ls.reg.Top()
 	for _, value := range values {
 		ls.reg.Push(value)
